@@ -28,7 +28,7 @@ func (c *Ctx) schemaIface() (*types.Interface, *types.Named) {
 
 // RuleO1: every user type gets its rules before any user type is loaded.
 func RuleO1(c *Ctx) {
-	sc := c.Run.Begin("O1", "AddRule is called on shared user-type schemas only in a dedicated pass over all of them (an iterator callback that calls no loading method), and that pass dominates every call that can load a user type (UsedUserTypes, Check, AddType, GetAST, Example ...)", 2)
+	sc := c.Run.Begin("O1", "AddRule is called on shared user-type schemas only in a dedicated pass over all of them (an iterator callback that calls no loading method), and that pass dominates every call that can load a user type (UsedUserTypes, Check, AddType, GetAST, Example ...)", 1)
 	defer sc.End()
 	iface, _ := c.schemaIface()
 	utField := c.Field("core", "JApiCore", "userTypes")
@@ -540,7 +540,7 @@ var _ = sort.Strings
 
 // RuleSO1: collection stages precede the stage that builds the catalog.
 func RuleSO1(c *Ctx) {
-	sc := c.Run.Begin("SO1", "the pipeline runs its stages in the order scan, compileCore (macros, paste, rules, tags, user types, paths), buildCatalog, compileCatalog, validateCatalog, each later stage dominated by the success of the earlier ones; inside compileCore every collect step precedes compileUserTypes", 2)
+	sc := c.Run.Begin("SO1", "the pipeline runs its stages in the order scan, compileCore (macros, paste, rules, tags, user types, paths), buildCatalog, compileCatalog, validateCatalog, each later stage dominated by the success of the earlier ones; inside compileCore every collect step precedes compileUserTypes", 1)
 	defer sc.End()
 	pk := c.P.Pkg("core")
 	scan := c.scanStage()
